@@ -44,6 +44,16 @@ class One:
     def __repr__(self) -> str:
         return "one"
 
+    # There is only one instance: copying and pickling give it back.
+    def __copy__(self) -> Self:
+        return self
+
+    def __deepcopy__(self, memo: dict) -> Self:
+        return self
+
+    def __reduce__(self) -> str:
+        return "one"
+
 
 one = One()
 del One
@@ -69,6 +79,16 @@ class Zero:
         return "zero"
 
     adjoint = __neg__ = __rmul__ = __mul__
+
+    # There is only one instance: copying and pickling give it back.
+    def __copy__(self) -> Self:
+        return self
+
+    def __deepcopy__(self, memo: dict) -> Self:
+        return self
+
+    def __reduce__(self) -> str:
+        return "zero"
 
 
 zero = Zero()
